@@ -4,6 +4,7 @@ use vcore::{Ctx, J};
 
 mod c03;
 mod c01;
+mod c02;
 mod c06;
 mod semcheck;
 mod c11;
@@ -15,6 +16,7 @@ fn table(prop: &str) -> Option<(RunFn, ReplayFn)> {
   Some(match prop {
     "C03" => (c03::run, c03::replay),
     "C01" => (c01::run, c01::replay),
+    "C02" => (c02::run, c02::replay),
     "C06" => (c06::run, c06::replay),
     "C11" => (c11::run, c11::replay),
     _ => return None,
